@@ -179,6 +179,46 @@ theorem time_cell_eq_memory (x : Ext) (hx : ExtLaw x) (cs : ColStyles) (rowStyle
       · right; simp [hs]
       · left; simp [hs]
 
+/-- **time.Duration values.** `SetRow` stores a duration as `SetCellValue` does (the same `FormatFloat(seconds/86400)`
+text, kind number, same formula) and gives it whatever style the cell has; the in-memory API additionally assigns a default
+duration format (`nfMem`: 20, 21 or 46) to a cell without any style, the stream writer assigns none — again outside
+"explicitly assigned styles". (With `nfMem = 0` the general theorems cover durations.) -/
+theorem duration_cell_eq_memory (x : Ext) (hx : ExtLaw x) (cs : ColStyles) (rowStyle : Int) (ref : Bytes) (col : Int)
+    (text : Bytes) (nfMem : Int) (htext : text ≠ []) (wrap : Option (Int × Bytes)) (c : XC)
+    (h : mkCell x cs rowStyle ref col
+      (match wrap with | none => .plain (.dur text nfMem) | some w => .cell w.1 w.2 (.dur text nfMem)) = .ok c) :
+    ∃ o, Spec.cellObs cs rowStyle col
+        (match wrap with | none => .plain (.dur text nfMem) | some w => .cell w.1 w.2 (.dur text nfMem)) = some o ∧
+      (readCell x c).kind = o.kind ∧ (readCell x c).value = o.value ∧ (readCell x c).formula = o.formula ∧
+      ((readCell x c).style = o.style ∨ ((readCell x c).style = 0 ∧ o.style = nfMem)) := by
+  cases wrap with
+  | none =>
+    have h' : mkCell x cs rowStyle ref col (.plain (.dur text 0)) = .ok c := h
+    have := (Stream.cell_eq_memory x hx cs rowStyle ref col (.plain (.dur text 0)) (by simp [Item.isSkip])
+      (show Val.ok (.dur text 0) from ⟨htext, rfl⟩) c h').2
+    simp only [Spec.cellObs, Option.some.injEq] at this
+    refine ⟨_, rfl, ?_⟩
+    rw [this]
+    generalize (if rowStyle ≠ 0 then rowStyle else colStyleAt cs col) = S
+    simp only [Spec.valObs, Spec.valStyle]
+    refine ⟨trivial, trivial, trivial, ?_⟩
+    by_cases hs : S = 0
+    · right; simp [hs]
+    · left; simp [hs]
+  | some w =>
+    have h' : mkCell x cs rowStyle ref col (.cell w.1 w.2 (.dur text 0)) = .ok c := h
+    have := (Stream.cell_eq_memory x hx cs rowStyle ref col (.cell w.1 w.2 (.dur text 0)) (by simp [Item.isSkip])
+      (show Val.ok (.dur text 0) from ⟨htext, rfl⟩) c h').2
+    simp only [Spec.cellObs, Option.some.injEq] at this
+    refine ⟨_, rfl, ?_⟩
+    rw [this]
+    generalize (if w.1 > 0 then w.1 else if rowStyle ≠ 0 then rowStyle else colStyleAt cs col) = S
+    simp only [Spec.valObs, Spec.valStyle]
+    refine ⟨trivial, trivial, trivial, ?_⟩
+    by_cases hs : S = 0
+    · right; simp [hs]
+    · left; simp [hs]
+
 /-- **stream_eq_memory.** Take any starting state without rows (any SetColStyle/SetColWidth/
 SetPanes/MergeCell history) and any sequence of SetRow calls that are all accepted (hence
 ascending), with arbitrary gaps, nil cells, starting columns and widths. Reading the written
@@ -329,6 +369,42 @@ theorem worksheet_part_order (x : Ext) (cfg : Cfg) (prolog sv : Bytes) (n : Int)
         ++ epilogBytes (writeSheetData s) e := hout
   rw [hout', hep, hm, hpd]
   simp only [List.append_assoc]
+
+/-! ## panes -/
+
+/-- **SetPanes content.** Before the first row, `SetPanes(p)` makes the pre-data: `<sheetViews><sheetView` + the view's own
+attributes + `>` + the pane element + the selections + `</sheetView></sheetViews>`, then `sheetFormatPr`, the columns and the
+`sheetData` start tag. (`panesSV` is compared byte for byte with the real rendering on every SetPanes of the transcript.) -/
+theorem setPanes_content (s : SW) (hsw : s.sheetWritten = false) (va f5 : Bytes) (p : PaneOpts) :
+    (setPanes s true (panesSV va f5 p)).2 = none ∧
+    (setPanes s true (panesSV va f5 p)).1.pre =
+      lit "<sheetViews><sheetView" ++ va ++ lit ">" ++ paneElem p ++ p.selection.flatMap selectionElem
+        ++ lit "</sheetView></sheetViews>" ++ f5 ++ renderCols s.colStyles ++ lit "<sheetData>" := by
+  simp [setPanes, hsw, preData, panesSV]
+
+/-- The pane element is absent exactly when the options neither freeze nor split (`setPanes` removes the pane then);
+otherwise its attributes are, as a finite map, exactly the options: `state="frozen"` only for a frozen pane, `xSplit` /
+`ySplit` when non-zero, `topLeftCell` / `activePane` when non-empty. The in-memory `SetPanes` builds the same `xlsxPane`
+(`ws.setPanes` is shared) and the same encoder writes it, so `GetPanes` agrees on both sides. -/
+theorem pane_element (p : PaneOpts) :
+    (paneElem p = [] ↔ (p.freeze = false ∧ p.split = false)) ∧
+    attrOf (paneAttrs p) (lit "state") = (if p.freeze then some (lit "frozen") else none) ∧
+    attrOf (paneAttrs p) (lit "xSplit") = (if p.xSplit ≠ 0 then some (itoaInt p.xSplit) else none) ∧
+    attrOf (paneAttrs p) (lit "ySplit") = (if p.ySplit ≠ 0 then some (itoaInt p.ySplit) else none) ∧
+    attrOf (paneAttrs p) (lit "topLeftCell") = (if p.topLeftCell ≠ [] then some (escapeText p.topLeftCell) else none) ∧
+    attrOf (paneAttrs p) (lit "activePane") = (if p.activePane ≠ [] then some (escapeText p.activePane) else none) :=
+  ⟨paneElem_nil_iff p, paneAttrs_map p⟩
+
+/-- the struct tags of `xlsxPane` and `xlsxSelection` the pane rendering follows (regenerated) -/
+theorem pane_tags_ok :
+    Facts.C11.tags_xlsxPane.map (fun f => (f.1, f.2.2)) =
+      [("ActivePane", "xml:\"activePane,attr,omitempty\""), ("State", "xml:\"state,attr,omitempty\""),
+       ("TopLeftCell", "xml:\"topLeftCell,attr,omitempty\""), ("XSplit", "xml:\"xSplit,attr,omitempty\""),
+       ("YSplit", "xml:\"ySplit,attr,omitempty\"")] ∧
+    Facts.C11.tags_xlsxSelection.map (fun f => (f.1, f.2.2)) =
+      [("ActiveCell", "xml:\"activeCell,attr,omitempty\""), ("ActiveCellID", "xml:\"activeCellId,attr\""),
+       ("Pane", "xml:\"pane,attr,omitempty\""), ("SQRef", "xml:\"sqref,attr,omitempty\"")] := by
+  constructor <;> decide
 
 /-! ## Flush: the part after `sheetData` in schema order -/
 
